@@ -44,6 +44,7 @@ type Config struct {
 	NoSlice      bool
 	NoPOR        bool
 	Debug        bool
+	NoRace       bool
 }
 
 type PathOpts struct {
@@ -492,7 +493,7 @@ func runPath(prog *ssa.Program, cfg *Config, harness *ssa.Function, prefix []int
 		CoverModels: map[string]map[string]interface{}{}}
 	ip.conc = &concState{pathDone: make(chan struct{}), envTicks: 0}
 	ip.fnSeen = map[string]bool{}
-	g0 := &GoR{id: 0, name: "main", wake: make(chan struct{})}
+	g0 := &GoR{id: 0, name: "main", wake: make(chan struct{}), vc: vclock{1}}
 	ip.gs = []*GoR{g0}
 	ip.cur = g0
 	ip.startGoroutine(g0, func() { ip.callFunction(harness, nil, nil) }, true)
